@@ -295,6 +295,33 @@ def c06_scripts(ctx):
                 ["<" + traffic.hx(p) for p in traffic.chunkings(w["S"], rng, mode_s)]
         out.append(traffic.script(rng.choice(("respdecomp=0", "p=IDS,respdecomp=0", "p=APACHE_2,respdecomp=0")), "-", items))
         meta.append(w)
+    # early responses: an Expect: 100-continue request whose body is sent in fragments while the (interim and/or final) response
+    # arrives between them, followed by a pipelined request: the body must still be delivered exactly and the next message must
+    # start right behind it. (A 4xx before the FIRST body byte is the documented shortcut - the client is then expected not to send
+    # the body - and is not generated.)
+    for _ in range(120 if ctx.tier == "quick" else 1200):
+        body = bytes(rng.choice(b"abcXYZ\r\n0123 GET/HTTP:") for _ in range(rng.randint(2, 40)))
+        k = rng.randint(1, len(body) - 1)
+        post = traffic.Msg(); post.method = b"POST"; post.target = b"/early"; post.version = b"HTTP/1.1"; post.body = body; post.body_kind = "cl"
+        get = traffic.Msg(); get.method = b"GET"; get.target = b"/next"; get.version = b"HTTP/1.1"; get.body = b""; get.body_kind = "none"
+        head = b"POST /early HTTP/1.1\r\nHost: h\r\nExpect: 100-continue\r\nContent-Length: %d\r\n\r\n" % len(body)
+        nxt = b"GET /next HTTP/1.1\r\nHost: h\r\n\r\n"
+        st = rng.choice((b"200 OK", b"400 Bad", b"417 Expectation Failed", b"404 NF", b"201 Created"))
+        rbody = rng.choice((b"", b"no"))
+        r1 = traffic.Msg(); r1.body = rbody; r1.body_kind = "cl"
+        r2 = traffic.Msg(); r2.body = b"k"; r2.body_kind = "cl"
+        final = b"HTTP/1.1 " + st + b"\r\nContent-Length: %d\r\n\r\n" % len(rbody) + rbody
+        interim = b"HTTP/1.1 100 Continue\r\n\r\n" if rng.random() < 0.5 else b""
+        resp2 = b"HTTP/1.1 200 OK\r\nContent-Length: 1\r\n\r\nk"
+        where = rng.choice(("mid", "mid", "after"))
+        if where == "mid":
+            items = [">" + traffic.hx(head)] + (["<" + traffic.hx(interim)] if interim else []) + [">" + traffic.hx(body[:k]), "<" + traffic.hx(final),
+                     ">" + traffic.hx(body[k:] + nxt), "<" + traffic.hx(resp2)]
+        else:
+            items = [">" + traffic.hx(head)] + (["<" + traffic.hx(interim)] if interim else []) + [">" + traffic.hx(body[:k]), ">" + traffic.hx(body[k:] + nxt),
+                     "<" + traffic.hx(final + resp2)]
+        out.append(traffic.script(rng.choice(("respdecomp=0", "p=IDS,respdecomp=0")), "-", items, op="pump"))
+        meta.append({"reqs": [post, get], "ress": [r1, r2], "rq": [head + body, nxt], "rs": [final, resp2], "R": head + body + nxt, "S": interim + final + resp2})
     # accounting part: all inputs
     acc = mixed_scripts(ctx, 300 if ctx.tier == "quick" else 3000, policy_p=0.0, tail=False,
                         cfg_fn=lambda r: r.choice(("respdecomp=0", "p=IDS,respdecomp=0")))
@@ -936,11 +963,23 @@ def canonical_run(sc, outs):
     evs = []
     rawdata = {}      # raw header/trailer data per (hook, tx): compared as byte streams, not as positions in the sequence
     open_idx = {}     # (hook, tx) -> index of the data event still open for merging (several data hooks may interleave)
+    fevs = []
     for e in cl.all_events(sc, outs):
         raw = e.name.endswith("_header_data") or e.name.endswith("_trailer_data")
         if raw:
             if e.kind == "bytes":
                 rawdata[(e.name, e.tx)] = rawdata.get((e.name, e.tx), b"") + e.data
+            continue
+        if e.name == "request_file_data":
+            # the FILE_DATA stream of a multipart upload is a data stream of its own (bytes and end-of-file markers, in order): where
+            # its calls fall between the REQUEST_BODY_DATA calls depends on the segmentation by construction, as for any two data hooks
+            if e.kind == "bytes" and fevs and fevs[-1][0] == "bytes" and fevs[-1][2] == e.tx:
+                fevs[-1] = ("bytes", fevs[-1][1] + e.data, e.tx)
+            elif e.kind == "bytes":
+                if len(e.data):
+                    fevs.append(("bytes", e.data, e.tx))
+            else:
+                fevs.append((e.kind, e.data, e.tx))
             continue
         if e.kind == "bytes":
             if len(e.data) == 0:
@@ -956,6 +995,7 @@ def canonical_run(sc, outs):
             open_idx = {}
             evs.append((e.name, e.tx, e.kind, e.data, e.rp, e.sp))
     evs.append(("raw", tuple(sorted(rawdata.items()))))
+    evs.append(("file", tuple(fevs)))
     head = None
     if g:
         head = tuple((k, g[k]) for k in ("ntx", "in_state", "out_state", "in_status", "out_status", "conn_flags", "in_ctr", "out_ctr"))
@@ -964,19 +1004,9 @@ def canonical_run(sc, outs):
 
 
 def res_cut_labels(S, starts, k):
-    """known-finding classes of a cut position k in the response stream (pieces S[:k] | S[k:])"""
-    labels = set()
-    for i, st in enumerate(starts):
-        if i == 0:
-            continue
-        eol = S.find(b"\r\n", st)
-        if st < k < eol + 2:
-            labels.add("S14")
-    if 2 <= k < len(S) and S[k - 2:k] == b"\r\n" and S[k:k + 1] in (b" ", b"\t"):
-        labels.add("S15")
-    if 1 <= k and S[k - 1:k] == b"\r" and S[k:k + 2] == b"\n\r":
-        labels.add("S1")
-    return labels
+    """known-finding classes of a cut position k in the response stream (pieces S[:k] | S[k:]). S1, S14 and S15 used to be
+    attributed here; all three are repaired in /repo, so a difference at those cuts is an unlisted violation again."""
+    return set()
 
 
 def c03_scripts(ctx):
@@ -984,11 +1014,22 @@ def c03_scripts(ctx):
     nex = 14 if ctx.tier == "quick" else 120
     out, meta = [], []
     opts = {"folding": True, "repeat": True, "urlenc_bodies": True, "close_delimited": True}
+    import mpgen
     for ei in range(nex):
         reqs, ress, rq, rs = traffic.gen_exchange(rng, n=rng.choice((1, 2, 3)), opts=opts)
+        cfg = rng.choice(("respdecomp=0,urlenc=1", "p=IDS,respdecomp=0,urlenc=1", "p=APACHE_2,respdecomp=0"))
+        if ei % 3 == 2:
+            # a multipart/form-data upload with the multipart handler on: parts, parameters and FILE_DATA calls are part of the parse
+            for _try in range(40):
+                ct, body, _truth = mpgen.gen_wellformed(rng, max_parts=2, small=True)
+                # at least one part, and CRLF line ends in three of four uploads (the common form)
+                if _truth["parts"] and (_truth["nl"] == b"\r\n" or ei % 16 == 15):
+                    break
+            rq = [b"POST /up?a=1 HTTP/1.1\r\nHost: h\r\nContent-Type: " + ct + b"\r\nContent-Length: %d\r\n\r\n" % len(body) + body]
+            rs = [b"HTTP/1.1 200 OK\r\nContent-Length: 2\r\n\r\nok"]
+            cfg = "respdecomp=0,urlenc=1,mpart=1"
         R, S = b"".join(rq), b"".join(rs)
         starts = [sum(len(x) for x in rs[:i]) for i in range(len(rs))]
-        cfg = rng.choice(("respdecomp=0,urlenc=1", "p=IDS,respdecomp=0,urlenc=1", "p=APACHE_2,respdecomp=0"))
         base = traffic.script(cfg, "-", [">" + traffic.hx(R), "<" + traffic.hx(S)])
         group = {"base": base, "variants": []}
         variants = []
